@@ -177,12 +177,18 @@ func (r *RandomChoiceSelection) Select(pool UpstreamPool, _ *layer4.Connection) 
 		k = len(pool)
 	}
 	choices := make([]*Upstream, k)
-	for i, upstream := range pool {
+	// reservoir sampling over the available upstreams only: the n-th
+	// available one fills a free slot while there is one, afterwards it
+	// replaces a random slot with probability k/n
+	n := 0
+	for _, upstream := range pool {
 		if !upstream.available() {
 			continue
 		}
-		j := weakrand.Intn(i + 1)
-		if j < k {
+		n++
+		if n <= k {
+			choices[n-1] = upstream
+		} else if j := weakrand.Intn(n); j < k {
 			choices[j] = upstream
 		}
 	}
